@@ -429,6 +429,9 @@ func c04Rich(c *ev.Ctx, rr *rand.Rand) int {
 			if strings.Contains(body, "machine.") {
 				txt += "import \"github.com/goose-lang/goose/machine\"\n\n"
 			}
+			if strings.Contains(body, "disk.") {
+				txt += "import \"github.com/goose-lang/goose/machine/disk\"\n\n"
+			}
 			txt += body
 			_ = os.WriteFile(filepath.Join(dir, f), []byte(txt), 0644)
 			all += "// " + f + "\n" + txt + "\n"
